@@ -639,15 +639,15 @@ pub fn c07(ctx: &mut Ctx) -> Search {
 // C08
 // ======================================================================
 
-/// cuts: big-endian u16 positions, ascending; pieces are m[0..c0], m[c0..c1], ..
-fn pieces<'a>(m: &'a [u8], cuts: &[u8]) -> Vec<&'a [u8]> {
-    if cuts.len() % 2 != 0 {
-        panic!("{} cuts must be u16 pairs", HARNESS);
+/// cuts: big-endian positions (`width` bytes each), ascending; pieces are m[0..c0], m[c0..c1], ..
+fn pieces_w<'a>(m: &'a [u8], cuts: &[u8], width: usize) -> Vec<&'a [u8]> {
+    if cuts.len() % width != 0 {
+        panic!("{} cuts must be groups of {} bytes", HARNESS, width);
     }
     let mut out = Vec::new();
     let mut prev = 0usize;
-    for c in cuts.chunks(2) {
-        let p = ((c[0] as usize) << 8) | c[1] as usize;
+    for c in cuts.chunks(width) {
+        let p = c.iter().fold(0usize, |a, x| (a << 8) | *x as usize);
         if p < prev || p > m.len() {
             panic!("{} bad cut position {}", HARNESS, p);
         }
@@ -658,13 +658,41 @@ fn pieces<'a>(m: &'a [u8], cuts: &[u8]) -> Vec<&'a [u8]> {
     out
 }
 
+/// cuts: big-endian u16 positions
+fn pieces<'a>(m: &'a [u8], cuts: &[u8]) -> Vec<&'a [u8]> {
+    pieces_w(m, cuts, 2)
+}
+
+/// The message of a split case: `m` verbatim, or -- for multi-KiB messages, so that the replay command stays short --
+/// `len` bytes of the harness PRNG seeded with `mseed`.
+fn message(i: &Input) -> Vec<u8> {
+    if i.has("m") {
+        return i.get("m").to_vec();
+    }
+    let len = i.num("len") as usize;
+    if len > (64 << 20) {
+        panic!("{} len must be at most 64 MiB", HARNESS);
+    }
+    Rng::new(i.num("mseed")).bytes(len)
+}
+
+/// The pieces of a split case: `cuts` (u16 positions) or `cuts32` (u32 positions, for update chunks of 64 KiB and more).
+fn split<'a>(i: &Input, m: &'a [u8]) -> Vec<&'a [u8]> {
+    if i.has("cuts32") {
+        pieces_w(m, i.get("cuts32"), 4)
+    } else {
+        pieces(m, i.get("cuts"))
+    }
+}
+
 fn desc(ps: &[&[u8]]) -> String {
     ps.iter().map(|p| p.len().to_string()).collect::<Vec<_>>().join("+")
 }
 
 fn generichash_split(i: &Input) -> Outcome {
-    let (outlen, key, m) = (i.num("outlen") as usize, i.get("key"), i.get("m"));
-    let ps = pieces(m, i.get("cuts"));
+    let (outlen, key, mv) = (i.num("outlen") as usize, i.get("key"), message(i));
+    let m = &mv[..];
+    let ps = split(i, m);
     let want = so::generichash(outlen, m, key).expect("valid parameters");
     let mut st = must_ok(crypto_generichash_init(key_opt(key), outlen), "crypto_generichash_init")?;
     for p in &ps {
@@ -679,8 +707,9 @@ fn generichash_split(i: &Input) -> Outcome {
 }
 
 fn auth_split(i: &Input) -> Outcome {
-    let (k, m) = (i.arr::<32>("k"), i.get("m"));
-    let ps = pieces(m, i.get("cuts"));
+    let (k, mv) = (i.arr::<32>("k"), message(i));
+    let m = &mv[..];
+    let ps = split(i, m);
     let mut st = crypto_auth_init(&k);
     for p in &ps {
         crypto_auth_update(&mut st, p);
@@ -717,8 +746,9 @@ fn auth_split(i: &Input) -> Outcome {
 }
 
 fn onetimeauth_split(i: &Input) -> Outcome {
-    let (k, m) = (i.arr::<32>("k"), i.get("m"));
-    let ps = pieces(m, i.get("cuts"));
+    let (k, mv) = (i.arr::<32>("k"), message(i));
+    let m = &mv[..];
+    let ps = split(i, m);
     let mut st = crypto_onetimeauth_init(&k);
     for p in &ps {
         crypto_onetimeauth_update(&mut st, p);
@@ -759,8 +789,9 @@ fn onetimeauth_split(i: &Input) -> Outcome {
 }
 
 fn sha512_split(i: &Input) -> Outcome {
-    let m = i.get("m");
-    let ps = pieces(m, i.get("cuts"));
+    let mv = message(i);
+    let m = &mv[..];
+    let ps = split(i, m);
     let mut st = crypto_hash_sha512_init();
     for p in &ps {
         crypto_hash_sha512_update(&mut st, p);
@@ -774,8 +805,9 @@ fn sha512_split(i: &Input) -> Outcome {
 }
 
 fn sign_ph_split(i: &Input) -> Outcome {
-    let (seed, m) = (i.arr::<32>("seed"), i.get("m"));
-    let ps = pieces(m, i.get("cuts"));
+    let (seed, mv) = (i.arr::<32>("seed"), message(i));
+    let m = &mv[..];
+    let ps = split(i, m);
     let (pk, sk) = so::sign_seed_keypair(&seed);
     let want = so::sign_ph_create(&[m], &sk);
     let mut st = crypto_sign_init();
@@ -918,6 +950,47 @@ pub fn c08(ctx: &mut Ctx) -> Search {
         for c in [0usize, 1, 15, 16, 17, 63, 64, 65, 127, 128, 129, 191, 192, 193, 255, 256, 257, len - 1, len] {
             if c <= len {
                 run_all_split(ctx, &m, &cuts(&[c]), &gh, &k, &seed, true)?;
+            }
+        }
+    }
+    // update chunks of 64 KiB and more (a single chunk, a chunk of exactly / just over 64 KiB next to a short one, two large
+    // chunks): message = `len` bytes of the PRNG seeded with `mseed`, positions as u32
+    {
+        let mut rng_l = Rng::new(0xC0851 + t as u64);
+        let mut shapes: Vec<(usize, Vec<usize>)> = vec![
+            (65536, vec![]),
+            (65537, vec![]),
+            (70000, vec![]),
+            (131073, vec![]),
+            (65537, vec![1]),
+            (70000, vec![65536]),
+            (131073, vec![65537]),
+            (140001, vec![3, 70003]),
+        ];
+        if t {
+            shapes.extend_from_slice(&[
+                (65535, vec![]),
+                (65536, vec![0]),
+                (65600, vec![63]),
+                (131072, vec![]),
+                (131072, vec![65536]),
+                (196609, vec![]),
+                (200000, vec![65536, 131072]),
+                (200001, vec![127, 65536 + 127]),
+                (262144 + 4097, vec![]),
+                ((1 << 20) + 1, vec![17]),
+                ((2 << 20) + 65, vec![(1 << 20) + 64]),
+            ]);
+        }
+        for (len, cs) in shapes {
+            let c32: Vec<u8> = cs.iter().flat_map(|p| (*p as u32).to_be_bytes()).collect();
+            let big = |rng: &mut Rng| Input::new().u("mseed", rng.next() >> 16).u("len", len as u64).b("cuts32", &c32);
+            ctx.run("sha512_split", big(&mut rng_l))?;
+            ctx.run("sign_ph_split", big(&mut rng_l).b("seed", &seed))?;
+            ctx.run("auth_split", big(&mut rng_l).b("k", &k))?;
+            ctx.run("onetimeauth_split", big(&mut rng_l).b("k", &k))?;
+            for (outlen, key) in &gh {
+                ctx.run("generichash_split", big(&mut rng_l).u("outlen", *outlen as u64).b("key", key))?;
             }
         }
     }
